@@ -88,6 +88,19 @@ CLAIMED.update({
   },
 })
 
+CLAIMED.update({
+  "C16": {
+    "text": "Symbolic execution of the real LCDDocFilter.process on documents whose region geometry (origin, extent, position in "
+            "%, px, c, rh with edges), times, animation intervals and safe_area are symbols: the listed post-conditions "
+            "(no steps, style whitelist, region == safe area, no two equal regions, references redirected), preservation of "
+            "the text timeline against the R-ISD oracle for a symbolic query time, computed colour/background/alignment, "
+            "no exception and idempotence are SMT queries on every path.",
+    "note": "Geometry floats (100/rows etc.) are relaxed to reals; skeletons x layout kinds are the bound; em units outside.",
+    "technique": "symbolic execution with z3 Real/Int proxies, post-conditions and oracle comparison per path",
+    "design": "DESIGN.md §3 C16",
+  },
+})
+
 NOT_YET = {
 }
 
